@@ -112,3 +112,15 @@ package index
 //@   loop 1 invariant forall(k, 0, rangeindex+1, w.streams[k].FirstPacketTimeNS == old(w.streams[k].FirstPacketTimeNS) + diff && w.streams[k].LastPacketTimeNS == old(w.streams[k].LastPacketTimeNS) + diff)
 //@   loop 1 invariant forall(k, rangeindex+1, len(w.streams), w.streams[k].FirstPacketTimeNS == old(w.streams[k].FirstPacketTimeNS) && w.streams[k].LastPacketTimeNS == old(w.streams[k].LastPacketTimeNS))
 //@   loop 1 decreases len(w.streams) - rangeindex
+
+// ---------------------------------------------------------------------------
+// C02: a stream that a newer index also holds is never reported from the older index.
+// The shadowing filter keeps a stream exactly when no superseding index contains its id, and the
+// limit filter keeps exactly the requested ids.
+// ---------------------------------------------------------------------------
+//@ func (*Reader).buildSearchObjects$2
+//@   prop C02
+//@   requires s != nil && forall(j, 0, len(superseedingIndexes), !isnil(superseedingIndexes[j]))
+//@   loop 1 invariant shadow_scan: 0 <= rangeindex+1 && rangeindex+1 <= len(superseedingIndexes) && forall(j, 0, rangeindex+1, !haskey(superseedingIndexes[j].containedStreamIds, s.StreamID))
+//@   ensures shadow_exact: result0 == forall(j, 0, len(superseedingIndexes), !haskey(superseedingIndexes[j].containedStreamIds, s.StreamID))
+//@   ensures shadow_noerr: isnil(result1)
